@@ -136,7 +136,7 @@ type c18Machine struct {
 	nMultiDue, nMultiDueSameWho, nOracleOK, nOracleDone, nBadBody, nErrResp, nTimeout, nSkipped, nNoBinding int
 	nOracleRefused, nOracleLax                                                                              int
 	nZeroInterval, nLarge, nMeta, nPlainDone, nFeeRefused                                                   int
-	nStartFailed                                                                                            int
+	nStartFailed, nReimport, nReimportMulti                                                                 int
 }
 
 const c18Requesters = 4 // U0..U3; U4 = unrelated requester on metamorphic branches; U5 = provider
@@ -180,6 +180,10 @@ func (m *c18Machine) Next(t *rapid.T) c18Op {
 		// fault injection: the service context of a pending oracle request vanishes (a state that a genesis import
 		// with a dangling request produces), so the service call cannot be started at the due block
 		return c18Op{Kind: "orphan", Target: rapid.SampledFrom(queuedOracles).Draw(t, "orphan")}
+	}
+	if nq := len(m.reqs); nq > 0 && rapid.IntRange(0, 14).Draw(t, "reimport?") == 0 {
+		// restart from the module's own exported genesis: the pending queue is what the genesis carries
+		return c18Op{Kind: "reimport"}
 	}
 	k := rapid.IntRange(0, 99).Draw(t, "kind")
 	switch {
@@ -244,6 +248,8 @@ func (m *c18Machine) Apply(op c18Op) error {
 		return m.applyRespond(op)
 	case "orphan":
 		return m.applyOrphan(op)
+	case "reimport":
+		return m.applyReimport()
 	}
 	return fmt.Errorf("unknown op kind %q", op.Kind)
 }
@@ -477,6 +483,30 @@ func c18SameIDs(got []string, want map[string]int) error {
 	return nil
 }
 
+// applyReimport exports the random genesis (the pending queue), wipes the queue and imports it again: every
+// pending request must still be there, and the history goes on as if nothing had happened.
+func (m *c18Machine) applyReimport() error {
+	nq := 0
+	multi := map[int64]int{}
+	for _, r := range m.reqs {
+		if r.state == c18Queued {
+			nq++
+			multi[r.due]++
+		}
+	}
+	if _, stage, err := m.c.Reimport("random", randomtypes.RandomRequestQueueKey); err != nil {
+		return pbt.Failf("C18/reimport-"+stage, "random genesis round trip with %d pending requests: %v", nq, err)
+	}
+	m.nReimport++
+	for _, n := range multi {
+		if n >= 2 {
+			m.nReimportMulti++
+			break
+		}
+	}
+	return m.check()
+}
+
 func (m *c18Machine) applyOrphan(op c18Op) error {
 	if op.Target < 0 || op.Target >= len(m.reqs) {
 		return nil
@@ -670,6 +700,8 @@ func (m *c18Machine) Classify() (bool, []string) {
 	add(m.nErrResp > 0, "oracle-error-response")
 	add(m.nTimeout > 0, "oracle-timeout")
 	add(m.nStartFailed > 0, "oracle-start-failed")
+	add(m.nReimport > 0, "genesis-round-trip")
+	add(m.nReimportMulti > 0, "genesis-round-trip-with->=2-pending-at-one-height")
 	add(m.nSkipped > 0, "oracle-fee-cap-below-price")
 	add(m.nNoBinding > 0, "oracle-without-binding-refused")
 	add(m.nFeeRefused > 0, "oracle-fee-cap-above-balance-refused")
@@ -682,7 +714,7 @@ func (m *c18Machine) Classify() (bool, []string) {
 	return m.nMultiDue > 0 && m.nOracleOK > 0, cl
 }
 
-const c18Rule = "rapid state machine: bind provider / request (4 requesters, at most one per requester per block; interval joining a pending due height, 0..20, or large up to 2^62; plain or oracle with fee cap above/below the price or above the balance) / block (generated app hash and time step; optionally also on a branch with an unrelated extra request) / provider response (valid seed, schema-violating body, error result, or none until the timeout of 3 blocks) / fault injection: the service context of a queued oracle request removed from the store, so the service call cannot start at the due block; non-trivial = history with >=2 requests due at one height and >=1 accepted oracle request; distinct by SHA-256 of the op list"
+const c18Rule = "rapid state machine: bind provider / request (4 requesters, at most one per requester per block; interval joining a pending due height, 0..20, or large up to 2^62; plain or oracle with fee cap above/below the price or above the balance) / block (generated app hash and time step; optionally also on a branch with an unrelated extra request) / provider response (valid seed, schema-violating body, error result, or none until the timeout of 3 blocks) / genesis round trip of the pending queue (export, wipe, import) / fault injection: the service context of a queued oracle request removed from the store, so the service call cannot start at the due block; non-trivial = history with >=2 requests due at one height and >=1 accepted oracle request; distinct by SHA-256 of the op list"
 
 func init() { pbt.RegisterMachine("c18", newC18) }
 
